@@ -925,50 +925,8 @@ func (s *Server) handleRelease(req *dhcpv4.DHCPv4) {
 	}
 
 	if exists {
-		// Send RADIUS Accounting-Stop
-		if s.radiusClient != nil && lease.SessionID != "" {
-			sessionTime := uint32(time.Since(lease.SessionStart).Seconds())
-			go func() {
-				err := s.radiusClient.SendAccounting(context.Background(), &radius.AcctRequest{
-					SessionID:      lease.SessionID,
-					Username:       mac.String(),
-					MAC:            mac,
-					FramedIP:       lease.IP,
-					StatusType:     radius.AcctStatusStop,
-					InputOctets:    lease.InputBytes,
-					OutputOctets:   lease.OutputBytes,
-					SessionTime:    sessionTime,
-					TerminateCause: radius.TerminateCauseUserRequest,
-					Class:          lease.Class,
-				})
-				if err != nil {
-					s.logger.Warn("Failed to send RADIUS Accounting-Stop",
-						zap.String("session_id", lease.SessionID),
-						zap.Error(err),
-					)
-				}
-			}()
-		}
-
-		// Remove QoS policy
-		if s.qosMgr != nil {
-			if err := s.qosMgr.RemoveSubscriberQoS(lease.IP); err != nil {
-				s.logger.Warn("Failed to remove QoS policy",
-					zap.String("ip", lease.IP.String()),
-					zap.Error(err),
-				)
-			}
-		}
-
-		// Deallocate NAT
-		if s.natMgr != nil {
-			if err := s.natMgr.DeallocateNAT(lease.IP); err != nil {
-				s.logger.Warn("Failed to deallocate NAT",
-					zap.String("ip", lease.IP.String()),
-					zap.Error(err),
-				)
-			}
-		}
+		// Accounting-Stop, QoS policy, NAT block
+		s.releaseSessionResources(mac, lease, radius.TerminateCauseUserRequest)
 
 		// Release IP back to pool
 		if pool := s.poolMgr.GetPool(lease.PoolID); pool != nil {
@@ -1027,6 +985,57 @@ func (s *Server) handleRelease(req *dhcpv4.DHCPv4) {
 	atomic.AddUint64(&s.releasesTotal, 1)
 }
 
+// releaseSessionResources ends what handleRequest set up for a new session besides
+// the lease, the pool binding and the fast path entries: it sends the RADIUS
+// Accounting-Stop and removes the subscriber's QoS policy and NAT block. Every path
+// that takes a lease out of the table calls it exactly once for that lease.
+func (s *Server) releaseSessionResources(mac net.HardwareAddr, lease *Lease, terminateCause uint32) {
+	// Send RADIUS Accounting-Stop
+	if s.radiusClient != nil && lease.SessionID != "" {
+		sessionTime := uint32(time.Since(lease.SessionStart).Seconds())
+		go func() {
+			err := s.radiusClient.SendAccounting(context.Background(), &radius.AcctRequest{
+				SessionID:      lease.SessionID,
+				Username:       mac.String(),
+				MAC:            mac,
+				FramedIP:       lease.IP,
+				StatusType:     radius.AcctStatusStop,
+				InputOctets:    lease.InputBytes,
+				OutputOctets:   lease.OutputBytes,
+				SessionTime:    sessionTime,
+				TerminateCause: terminateCause,
+				Class:          lease.Class,
+			})
+			if err != nil {
+				s.logger.Warn("Failed to send RADIUS Accounting-Stop",
+					zap.String("session_id", lease.SessionID),
+					zap.Error(err),
+				)
+			}
+		}()
+	}
+
+	// Remove QoS policy
+	if s.qosMgr != nil {
+		if err := s.qosMgr.RemoveSubscriberQoS(lease.IP); err != nil {
+			s.logger.Warn("Failed to remove QoS policy",
+				zap.String("ip", lease.IP.String()),
+				zap.Error(err),
+			)
+		}
+	}
+
+	// Deallocate NAT
+	if s.natMgr != nil {
+		if err := s.natMgr.DeallocateNAT(lease.IP); err != nil {
+			s.logger.Warn("Failed to deallocate NAT",
+				zap.String("ip", lease.IP.String()),
+				zap.Error(err),
+			)
+		}
+	}
+}
+
 // handleDecline handles DHCP DECLINE
 func (s *Server) handleDecline(req *dhcpv4.DHCPv4) {
 	mac := req.ClientHWAddr
@@ -1061,6 +1070,9 @@ func (s *Server) handleDecline(req *dhcpv4.DHCPv4) {
 	if exists && lease != nil {
 		// The lease is gone: the fast path must stop answering from it
 		s.removeFromFastPathCache(mac, lease)
+
+		// The session is over as after a RELEASE: Accounting-Stop, QoS policy, NAT block
+		s.releaseSessionResources(mac, lease, radius.TerminateCauseLostService)
 
 		if pool := s.poolMgr.GetPool(lease.PoolID); pool != nil {
 			// Drop the client's pool binding first, otherwise the next
